@@ -493,6 +493,65 @@ pub fn blossom_ag(rng: &mut Rng) -> AG {
     AG { n, directed: false, edges }
 }
 
+/// larger blossom-rich graphs (several odd cycles sharing vertices, pendant paths): 10..16 nodes, up to ~22 edges.
+/// Too big for the enumeration oracle; judged through a Tutte-Berge certificate.
+pub fn blossom_big_ag(rng: &mut Rng) -> AG {
+    let n = 10 + rng.below(7);
+    let mut p: Vec<usize> = (0..n).collect();
+    rng.shuffle(&mut p);
+    let mut edges: Vec<(usize, usize, i64)> = vec![];
+    let mut used = 0;
+    while used + 3 <= n.min(12) {
+        let c = 3 + 2 * rng.below(2);
+        let c = c.min(n - used);
+        if c < 3 { break; }
+        for i in 0..c { edges.push((p[used + i], p[used + (i + 1) % c], 1)); }
+        // hang the cycle on what exists already
+        if used > 0 { edges.push((p[rng.below(used)], p[used + rng.below(c)], 1)); }
+        used += c;
+    }
+    for i in used..n { edges.push((p[rng.below(i.max(1))], p[i], 1)); }
+    for _ in 0..rng.below(4) {
+        let (a, b) = (rng.below(n), rng.below(n));
+        if a != b { edges.push((a, b, 1)); }
+    }
+    // simple: drop duplicates (either orientation)
+    let mut seen = std::collections::HashSet::new();
+    edges.retain(|&(a, b, _)| seen.insert((a.min(b), a.max(b))));
+    rng.shuffle(&mut edges);
+    for e in edges.iter_mut() { if rng.chance(1, 2) { *e = (e.1, e.0, e.2); } }
+    AG { n, directed: false, edges }
+}
+
+/// A set U maximising odd(G - U) - |U| (Tutte-Berge): nu(G) = (n + |U| - odd(G - U)) / 2.  Brute force over all U.
+pub fn tutte_berge_witness(ag: &AG) -> Vec<usize> {
+    let n = ag.n;
+    assert!(n <= 20);
+    let mut adj = vec![0u32; n];
+    for &(a, b, _) in &ag.edges { if a != b { adj[a] |= 1 << b; adj[b] |= 1 << a; } }
+    let (mut best, mut best_u) = (i64::MIN, 0u32);
+    for u in 0..(1u32 << n) {
+        let mut left = !u & ((1u32 << n) - 1);
+        let mut odd = 0i64;
+        while left != 0 {
+            let s = left.trailing_zeros();
+            let (mut comp, mut frontier) = (1u32 << s, 1u32 << s);
+            while frontier != 0 {
+                let v = frontier.trailing_zeros() as usize;
+                frontier &= frontier - 1;
+                let nb = adj[v] & left & !comp;
+                comp |= nb;
+                frontier |= nb;
+            }
+            left &= !comp;
+            if comp.count_ones() % 2 == 1 { odd += 1; }
+        }
+        let d = odd - u.count_ones() as i64;
+        if d > best { best = d; best_u = u; }
+    }
+    (0..n).filter(|i| best_u & (1 << i) != 0).collect()
+}
+
 /// Flow graphs for dominators: everything reachable from node 0, several merging paths and
 /// cycles entered at more than one node (irreducible regions), n = 5..7.
 pub fn flowgraph_ag(rng: &mut Rng) -> AG {
